@@ -35,7 +35,7 @@ def prepare(ctx):
 
 OPS = ["+", "-", "*", "/", "neg", "pow", "rmul", "rdiv", "ndmul", "nddiv"]
 BKINDS = ["A", "A", "num", "npf", "nd", "Q"]
-EXPONENTS = [-2, -1, 0, 0.5, 1, 2, 3, -1.0, 2.0]
+EXPONENTS = [-2, -1, 0, 0.5, 1, 2, 3, -1.0, 2.0, 0.15, 2.35, 0.01, 1.4, 1.05, 0.3]      # incl. fractions with large denominators
 
 
 @st.composite
